@@ -11,6 +11,7 @@ import (
 
 func init() {
 	register(&Rule{ID: "TABLE-ESC", Doc: "escape tables agree with the quoting code: escapeASCII marks every control byte, '\"', '\\\\' and the HTML-sensitive bytes '<' '>' '&'; NeedEscape reports U+FFFD (invalid UTF-8), U+2028 and U+2029; AppendQuote and the PreserveRawStrings branch of ReformatString escape exactly {<,>,&} under EscapeForHTML and {U+2028,U+2029} under EscapeForJS; ReformatString copies verbatim only under !AnyEscape; pre-quoted struct names come from AppendQuote and nameNeedEscape from NeedEscape", Run: ruleTABLEESC})
+	register(&Rule{ID: "UNWRITE-2", Doc: "avoidFlush keeps everything an unwrite may need in the buffer: as a boolean function of the coder state it equals Length()==0 || needObjectValue() || (NeedObjectName() && len(Buf)>=2 && empty-value suffix), whatever its spelling; any additional condition that narrows it (for example only objects) lets a flush separate a name or an opening bracket from what UnwriteOnlyObjectMemberName / UnwriteEmptyObjectMember must take back", Run: ruleUNWRITE2})
 	register(&Rule{ID: "UNWRITE-1", Doc: "the two-byte suffixes recognised by avoidFlush equal those recognised by UnwriteEmptyObjectMember (ll, \"\", {}, []), and each maps to the length of the corresponding empty value", Run: ruleUNWRITE1})
 	register(&Rule{ID: "PTR-1", Doc: "JSON Pointer escape tables are inverse (RFC 6901 section 4): the writer maps '~' to \"~0\" and '/' to \"~1\"; the reader replaces \"~1\" by \"/\" and then \"~0\" by \"~\", in that order", Run: rulePTR1})
 	register(&Rule{ID: "SINK-1", Doc: "bytes that bypass string validation are ASCII-safe by construction: every AppendRaw call with safeASCII=true only uses producers from the reviewed table (strconv.AppendInt/Uint, jsonwire.AppendFloat, base16/32/64 AppendEncode, appendDuration*, appendTimeUnix, Duration.String); a non-constant safeASCII must be the negation of hasCustomFormat; the pre-quoted struct member name is emitted only under !nameNeedEscape", Run: ruleSINK1})
@@ -785,4 +786,158 @@ func rulePTR2(c *Ctx) {
 		})
 		c.Oblige("escaped-only:"+f.Name, f.Pos(), bad == "", bad)
 	}
+}
+
+func ruleUNWRITE2(c *Ctx) {
+	p := c.P
+	f := p.Func("jsontext.(*encoderState).avoidFlush")
+	if f == nil || f.Body() == nil {
+		c.Undecide("jsontext.(*encoderState).avoidFlush", "function missing")
+		return
+	}
+	info := f.Info()
+	bufField := p.Field("jsontext", "encodeBuffer", "Buf")
+	isLenBuf := func(e ast.Expr) bool {
+		call, ok := ast.Unparen(e).(*ast.CallExpr)
+		return ok && IsBuiltin(info, call, "len") && len(call.Args) == 1 && SelField(info, call.Args[0]) == bufField
+	}
+	// atoms: 0 Length()==0, 1 needObjectValue(), 2 NeedObjectName(), 3 len(Buf)>=2, 4 suffix is an empty value
+	atom := func(e ast.Expr) (int, bool, bool) {
+		switch x := e.(type) {
+		case *ast.CallExpr:
+			if _, ok := MethodCall(info, x, "jsontext", "stateEntry", "needObjectValue"); ok {
+				return 1, false, true
+			}
+			if _, ok := MethodCall(info, x, "jsontext", "stateEntry", "NeedObjectName"); ok {
+				return 2, false, true
+			}
+		case *ast.BinaryExpr:
+			if call, ok := ast.Unparen(x.X).(*ast.CallExpr); ok {
+				if _, isLen := MethodCall(info, call, "jsontext", "stateEntry", "Length"); isLen {
+					if v, isC := ConstI64(info, x.Y); isC {
+						switch {
+						case x.Op == token.EQL && v == 0, x.Op == token.LSS && v == 1, x.Op == token.LEQ && v == 0:
+							return 0, false, true
+						case x.Op == token.NEQ && v == 0, x.Op == token.GTR && v == 0, x.Op == token.GEQ && v == 1:
+							return 0, true, true
+						}
+					}
+				}
+			}
+			if isLenBuf(x.X) {
+				if v, isC := ConstI64(info, x.Y); isC {
+					switch {
+					case x.Op == token.GEQ && v == 2, x.Op == token.GTR && v == 1:
+						return 3, false, true
+					case x.Op == token.LSS && v == 2, x.Op == token.LEQ && v == 1:
+						return 3, true, true
+					}
+				}
+			}
+		}
+		return 0, false, false
+	}
+	caseAtom := func(tag, val ast.Expr) (int, bool) {
+		// switch string(e.Buf[len(e.Buf)-2:]) { case `ll`, ... }
+		mentions := false
+		ast.Inspect(tag, func(n ast.Node) bool {
+			if x, ok := n.(ast.Expr); ok && SelField(info, x) == bufField {
+				mentions = true
+			}
+			return !mentions
+		})
+		if _, isStr := ConstStr(info, val); mentions && isStr {
+			return 4, true
+		}
+		return 0, false
+	}
+	tt := TruthTableCase(f, 5, atom, caseAtom, func(v uint) bool { return v&6 != 6 })
+	var bad []string
+	for _, v := range sortedKeysUint(tt) {
+		a0, a1, a2, a3, a4 := v&1 != 0, v&2 != 0, v&4 != 0, v&8 != 0, v&16 != 0
+		want := triNo
+		if a0 || a1 || (a2 && a3 && a4) {
+			want = triYes
+		}
+		if tt[v] != want {
+			got := map[tri]string{triYes: "true", triNo: "false", triUnknown: "not determined by these conditions"}[tt[v]]
+			bad = append(bad, fmt.Sprintf("Length()==0:%v needObjectValue:%v NeedObjectName:%v len(Buf)>=2:%v empty-suffix:%v -> %s, want %v", a0, a1, a2, a3, a4, got, want == triYes))
+		}
+	}
+	if len(tt) < 24 {
+		c.Undecide("avoidFlush/valuations", fmt.Sprintf("only %d valuations explored", len(tt)))
+		return
+	}
+	detail := ""
+	if len(bad) > 0 {
+		detail = fmt.Sprintf("avoidFlush differs from `Length()==0 || needObjectValue() || (NeedObjectName() && len(Buf)>=2 && empty suffix)` on %d of %d state valuations, e.g. %s", len(bad), len(tt), bad[0])
+	}
+	c.obligeW("avoidflush:truth-table", f.Pos(), len(bad) == 0, detail, strings.Join(bad, " ; "))
+
+	// Flush consults avoidFlush before it touches the writer or the buffer
+	fl := p.Func("jsontext.(*encoderState).Flush")
+	if fl == nil || fl.Body() == nil {
+		c.Undecide("jsontext.(*encoderState).Flush", "function missing")
+		return
+	}
+	finfo := fl.Info()
+	wrField := p.Field("jsontext", "encodeBuffer", "wr")
+	type st struct{ avoid tri }
+	badFlush := ""
+	touches := func(n ast.Node) bool {
+		t := false
+		ast.Inspect(n, func(x ast.Node) bool {
+			switch y := x.(type) {
+			case *ast.FuncLit:
+				return false
+			case *ast.CallExpr:
+				if cf := Callee(finfo, y); cf != nil && cf.Name() != "avoidFlush" {
+					if sig, ok := cf.Type().(*types.Signature); ok && sig.Recv() != nil && isEncoderState(sig.Recv().Type()) {
+						t = true
+					}
+				}
+			case *ast.SelectorExpr:
+				if fld := SelField(finfo, y); fld != nil && (fld == wrField || fld == bufField) {
+					if par, ok := p.Parent(fl.File, y).(*ast.BinaryExpr); ok && (par.Op == token.EQL || par.Op == token.NEQ) && fld == wrField {
+						return true // e.wr == nil test
+					}
+					t = true
+				}
+			}
+			return !t
+		})
+		return t
+	}
+	flow := &Flow[st]{Fn: fl}
+	flow.Node = func(n ast.Node, s st) []st {
+		if _, isRet := n.(*ast.ReturnStmt); isRet {
+			if s.avoid != triNo && touches(n) && badFlush == "" {
+				badFlush = "returns through a flushing call at " + p.Position(n.Pos()) + " without avoidFlush() having been false"
+			}
+			return nil
+		}
+		if s.avoid != triNo && touches(n) && badFlush == "" {
+			badFlush = "uses the writer or the buffer at " + p.Position(n.Pos()) + " on a path where avoidFlush() has not been found false"
+		}
+		return []st{s}
+	}
+	flow.Leaf = func(e ast.Expr, s st) (t, fs []st) {
+		if call, ok := ast.Unparen(e).(*ast.CallExpr); ok {
+			if _, ok := MethodCall(finfo, call, "jsontext", "encoderState", "avoidFlush"); ok {
+				return []st{{triYes}}, []st{{triNo}}
+			}
+		}
+		return []st{s}, []st{s}
+	}
+	flow.Run(st{})
+	c.Oblige("flush-consults-avoidflush", fl.Pos(), badFlush == "", badFlush)
+}
+
+func sortedKeysUint[V any](m map[uint]V) []uint {
+	ks := make([]uint, 0, len(m))
+	for k := range m {
+		ks = append(ks, k)
+	}
+	sort.Slice(ks, func(i, j int) bool { return ks[i] < ks[j] })
+	return ks
 }
